@@ -3,6 +3,8 @@ package checks
 import (
 	"fmt"
 	"reflect"
+	"strings"
+	"sync"
 	"time"
 
 	"github.com/simpleiot/simpleiot/client"
@@ -32,9 +34,9 @@ func sameBatch(e vEvent, s sentBatch) bool {
 func runC08(tier string, _ []string) int {
 	c := vlib.NewCtx("C08", tier, "exploration")
 	vlib.SetPortBlock(8)
-	c.SetRule("per case a fresh instance, a real client.Manager and 3-6 instrumented clients (one with children, one nested under a group, one mirrored under two parents); then 30-200 acknowledged batches from one connection (so acceptance order = send order) with origins from {'', own id, sibling id, child id, 'user-x'} to the clients' nodes, their children, siblings, unrelated nodes and the groups above, node points and edge points, non-decreasing timestamps per identity; a marker point with a foreign origin closes each client's stream. Oracle per client: delivered callbacks == the sent batches addressed to its node or a descendant, in order, where foreign-origin batches MUST appear, self-authored ones ('' on the own node, origin == own id) MUST NOT, and '' on a descendant MAY; fold check: constructed config + delivered (+ self-authored) points via MergePoints/MergeEdgePoints == Decode of what GetNodes returns. distinct = (target kind, origin kind, node|edge, class)")
+	c.SetRule("per case a fresh instance, a real client.Manager and 3-6 instrumented clients (one with children, one nested under a group, one mirrored under two parents); then 30-200 acknowledged batches from one connection (so acceptance order = send order) with origins from {'', own id, sibling id, child id, 'user-x'} to the clients' nodes, their children, siblings, unrelated nodes and the groups above, node points and edge points, non-decreasing timestamps per identity; a marker point with a foreign origin closes each client's stream. Oracle per client: delivered callbacks == the sent batches addressed to its node or a descendant, in order, where foreign-origin batches MUST appear, self-authored ones ('' on the own node, origin == own id) MUST NOT, and '' on a descendant MAY; fold check: constructed config + delivered (+ self-authored) points via MergePoints/MergeEdgePoints == Decode of what GetNodes returns. distinct = (target kind, origin kind, node|edge, class) In every second case a node outside every client subtree is then attached below a client node while a second connection writes to it back to back; after the manager has settled, a foreign point written to the newcomer must reach that client (marker barrier on the client node).")
 	c.Assume("structure is fixed during the write phase (restarts belong to C07); tombstoned array elements are not generated (Decode documents that holes may remain)")
-	nRuns := c.N(20, 300)
+	nRuns := c.N(40, 400)
 	wd := c.NewWatchdog()
 	vlib.Parallel(nRuns, 6, func(i int) {
 		r := vlib.NewR(c.Seed, "c08", i)
@@ -364,6 +366,111 @@ func runC08(tier string, _ []string) int {
 				return
 			}
 			c.Count("fold_checks", 1)
+		}
+		// ---- a node joins a client's subtree while it is being written to: afterwards, at rest, the
+		// client must be told of foreign changes to the newcomer
+		if i%2 == 0 {
+			cnode, k := vnodes[0], others[r.Intn(len(others))]
+			nc2, err := v.in.Connect()
+			if err != nil {
+				c.Inconclusive(err.Error())
+				return
+			}
+			stop := make(chan struct{})
+			var wg sync.WaitGroup
+			var wErr error
+			base := d.now().UnixNano() + int64(time.Hour)
+			wrote := 0
+			wg.Add(1)
+			go func() {
+				defer wg.Done()
+				for q := 0; ; q++ {
+					select {
+					case <-stop:
+						return
+					default:
+					}
+					e, err := vlib.SendAck(nc2, vlib.NodeSubj(k), data.Points{{Type: "busy", Time: time.Unix(0, base+int64(q)), Value: float64(q), Origin: "user-x"}})
+					if err != nil || e != "" {
+						wErr = fmt.Errorf("concurrent writer: %v %s", err, e)
+						return
+					}
+					wrote++
+				}
+			}()
+			time.Sleep(time.Duration(r.Intn(3000)) * time.Microsecond)
+			e, err := d.sendEdge(k, cnode, data.Points{{Type: data.PointTypeTombstone, Time: d.now()}, {Type: data.PointTypeNodeType, Text: "variable"}})
+			nTog := 2 * r.Intn(3) // even: the node ends up attached
+			for t := 0; t < nTog && err == nil && e == ""; t++ {
+				// ... and is detached and attached again
+				time.Sleep(time.Duration(r.Intn(2000)) * time.Microsecond)
+				e, err = d.sendEdge(k, cnode, data.Points{{Type: data.PointTypeTombstone, Time: d.now(), Value: float64(1 - t%2)}})
+			}
+			time.Sleep(time.Duration(r.Intn(3000)) * time.Microsecond)
+			close(stop)
+			wg.Wait()
+			nc2.Close()
+			if err != nil || e != "" || wErr != nil {
+				c.Violate("store:legal-write-refused", fmt.Sprint("attach below a client node: ", err, e, wErr), v.wit(nil))
+				return
+			}
+			if _, bad, err := v.quiesce(); err != nil || bad != "" {
+				if err != nil {
+					c.Inconclusive(err.Error())
+				} else {
+					c.Violate("manager:running-set-wrong:c08-attach", bad, v.wit(nil))
+				}
+				return
+			}
+			mk := data.Points{{Type: "joined", Time: time.Unix(0, base+int64(time.Hour)), Text: "after-attach-" + k, Origin: "user-x"}}
+			if e, err := d.sendNode(k, mk); err != nil || e != "" {
+				c.Violate("store:legal-write-refused", fmt.Sprint(err, e), v.wit(nil))
+				return
+			}
+			// barrier: a marker on the client's own node, written after it, arrives after it
+			end := data.Points{{Type: "vmarker", Time: d.now(), Text: "end2-" + cnode, Origin: "marker-author"}}
+			if e, err := d.sendNode(cnode, end); err != nil || e != "" {
+				c.Violate("store:legal-write-refused", fmt.Sprint(err, e), v.wit(nil))
+				return
+			}
+			var clientNo int64 = -1
+			for key, cl := range runningClients(v.mon.snapshot()) {
+				if strings.HasSuffix(key, "/"+cnode) {
+					clientNo = cl[0].Client
+				}
+			}
+			if clientNo < 0 {
+				c.Violate("manager:running-set-wrong:c08-attach", "no running client for "+cnode+" after the attach", v.wit(nil))
+				return
+			}
+			done := wd.Watch("client-delivery:marker-not-delivered", v.wit(map[string]any{"phase": "attach"}), 60*time.Second, true)
+			told, barrier := false, false
+			for !barrier {
+				for _, e := range v.mon.snapshot() {
+					if e.Client != clientNo || e.Kind != "points" {
+						continue
+					}
+					for _, p := range e.Points {
+						if e.Node == k && p.Type == "joined" && p.Text == mk[0].Text {
+							told = true
+						}
+						if p.Type == "vmarker" && p.Text == end[0].Text {
+							barrier = true
+						}
+					}
+				}
+				if !barrier {
+					time.Sleep(2 * time.Millisecond)
+				}
+			}
+			done()
+			c.Eval(1)
+			if !told {
+				c.Violate("client-delivery:foreign-change-lost-or-reordered:after-concurrent-attach", fmt.Sprintf("node %s was attached below client node %s while %d writes to it were in flight; at rest afterwards a foreign point written to it did not reach the client", k, cnode, wrote), v.wit(map[string]any{"attached": k, "client_node": cnode}))
+				return
+			}
+			c.Count("checked_after_concurrent_attach", 1)
+			c.Count("writes_during_attach", int64(wrote))
 		}
 		if i < 2 {
 			c.Sample(map[string]any{"clients": len(running), "batches": len(sent)})
